@@ -21,6 +21,14 @@ check("C15", "exploration",
 
 ALL = ["C%02d" % i for i in range(1, 21)]
 
+# entries written next to each check: tools/manifest.d/CNN.json {level, technique, text, note, ref}
+import glob
+for f in sorted(glob.glob(os.path.join(ROOT, "tools", "manifest.d", "C*.json"))):
+    d = json.load(open(f))
+    pid = os.path.basename(f)[:-5]
+    if os.path.exists(os.path.join(ROOT, "evidence", pid + ".json")):
+        check(pid, d["level"], d["technique"], d["text"], d["note"], d.get("ref", "DESIGN.md §4 " + pid))
+
 def main():
     hooks_commits = subprocess.run(
         ["git", "-C", "/repo", "log", "--format=%H %s", "--grep=^verif hook"],
